@@ -453,6 +453,29 @@ func oversizedReport(run *hx.Run) {
 	h := nhx.NewDrummerDBHostLimit(64 * 1024)
 	defer h.Close()
 	srv := drummer.VerifNewServer(h.NH)
+	// a batch scheduled for a host and picked up by an ordinary report must not come back in the reply to a later report
+	// that was never applied (C10: each batch is handed over once)
+	{
+		addr := "redeliver"
+		small := &pb.NodeHostInfo{RaftAddress: addr, RPCAddress: "rpc-" + addr, Region: "reg0"}
+		batch := &pb.NodeHostRequestCollection{Requests: []*pb.NodeHostRequest{{Change: &pb.Request{Type: pb.Request_KILL, ShardId: 5, Members: []uint64{7}}, RaftAddress: addr}}}
+		if _, err := propose(h, &pb.Update{Type: pb.Update_REQUESTS, Requests: batch}); err == nil {
+			first, err1 := srv.ReportAvailableNodeHost(ctx(), small)
+			huge := &pb.NodeHostInfo{RaftAddress: addr, RPCAddress: "rpc-" + addr, Region: "reg0", PlogInfoIncluded: true}
+			for i := 0; i < 20000; i++ {
+				huge.PlogInfo = append(huge.PlogInfo, &pb.LogInfo{ShardId: uint64(1 + i%50), ReplicaId: uint64(1 + i)})
+			}
+			second, err2 := srv.ReportAvailableNodeHost(ctx(), huge)
+			run.Count("case:redelivery_probe")
+			if err1 == nil && first != nil && len(first.Requests) == 1 && err2 == nil && second != nil && len(second.Requests) > 0 {
+				for _, p := range []string{"C10", "C17"} {
+					run.Violate(hx.Violation{Property: p, Clause: "batch_handed_over_once", Signature: "batch-delivered-again-by-unapplied-report",
+						What: "a batch picked up by one report came back in the reply to a later, oversized report that was acknowledged without having been applied",
+						Ops:  []string{"DB shard with MaxInMemLogSize=64KB; schedule [kill 5/7] for the host; ordinary report (reply carries the batch); report with 20000 log records (cannot be proposed); its reply carries the batch again"}})
+				}
+			}
+		}
+	}
 	for _, n := range []int{10, 20000} {
 		addr := fmt.Sprintf("big%d", n)
 		nhi := &pb.NodeHostInfo{RaftAddress: addr, RPCAddress: "rpc-" + addr, Region: "reg0", PlogInfoIncluded: true}
